@@ -32,6 +32,7 @@ def parseRc : String → Option Rc
 
 def parseOp : String → Option Op
   | "set" => some .set | "setbig" => some .setbig | "wait" => some .wait | "test" => some .test | "reset" => some .reset
+  | "free" => some .free
   | _ => none
 
 def parseKinds (ws : List String) : List (Nat × Kind) :=
